@@ -1010,8 +1010,9 @@ func (x *X) newRef(hint string) string {
 	r := x.fresh(hint, SInt)
 	alloc := x.heapCur("ALLOC", arrSort(SBool))
 	x.assume(fmt.Sprintf("(and (> %s 0) (not (select %s %s)))", r, alloc, r))
-	x.addPoint(r, "ref")
-	x.addPoint(r, "arr")
+	// (key "*fresh": used for the monotonicity of allocation, not for frame facts)
+	x.addPointT(r, "ref", "", "*fresh")
+	x.addPointT(r, "arr", "", "*fresh")
 	x.st.heap["ALLOC"] = x.define("alloc", arrSort(SBool), fmt.Sprintf("(store %s %s true)", alloc, r))
 	return r
 }
